@@ -92,60 +92,37 @@ example : (tokenize [120, 32, 43, 32, 49]).toks.length = 3 := by decide
 
 /-! ## scan_total: the scanner cannot panic
 
-Full-strength statement (what C05 asks of the scanner):
-
-    theorem scan_total (doc : Bytes) (h : Valid doc) : (tokenize doc).fin = .ok
-
-It is **false** for the unchanged code: the four bytes `/**/` make
-`&chars[3..(chars.len() - 2)]` (lexer.rs:405) a slice `[3..2]`.  Witness, then the theorem under
-the decidable side condition "the text does not contain `/**/`". -/
-
-theorem emptyDoc_valid : Valid [47, 42, 42, 47] := by
-  repeat (first | exact Valid.nil | apply Valid.one _ _ (by decide))
-
-/-- **Counterexample to `scan_total`** (finding C05-F1): on the valid text `/**/` the scanner panics. -/
-theorem scan_total_counterexample :
-    ¬ ∀ doc : Bytes, Valid doc → (tokenize doc).fin = .ok := by
-  intro h
-  have := h [47, 42, 42, 47] emptyDoc_valid
-  revert this
-  decide
+Historical note: until fix c949025 the four bytes `/**/` made `&chars[3..(chars.len() - 2)]`
+(lexer.rs:405) a slice `[3..2]`; this file then held `scan_total_counterexample` (witness `/**/`,
+finding C05-F1) and `scan_total_partial` (side condition "text does not contain `/**/`").  The model
+now follows the fixed code (`chars.len() > 4 && chars[2] == b'*'`) and the statement is proved at
+full strength. -/
 
 theorem rawLoop_safe (fuel : Nat) (rest : Bytes) (pos : Pos) (hf : rest.length < fuel)
-    (h : Valid rest) (hd : hasEmptyDoc rest = false) : (rawLoop fuel rest pos).fin = .ok := by
+    (h : Valid rest) : (rawLoop fuel rest pos).fin = .ok := by
   induction fuel generalizing rest pos with
   | zero => omega
   | succ fuel ih =>
-    have hs := nextRaw_safe rest pos h hd
+    have hs := nextRaw_safe rest pos h
     unfold rawLoop
     split
     · rfl
     · rename_i hp; exact absurd hp hs.1
     · rename_i s hs'
       have hp := nextRaw_progress hs'
-      obtain ⟨hv, hd'⟩ := hs.2 s hs'
-      exact ih s.rest s.pos (by omega) hv hd'
+      exact ih s.rest s.pos (by omega) (hs.2 s hs')
 
-/-- **scan_total_partial**: for every valid-UTF-8 text that does not contain the four bytes `/**/`,
-no scanner step evaluates a partial slice / bump / index out of range: tokenisation ends normally.
-(No bound on the text; the side condition is decidable and satisfiable.) -/
-theorem scan_total_partial (doc : Bytes) (h : Valid doc) (hd : hasEmptyDoc doc = false) :
-    (tokenize doc).fin = .ok := by
-  have := rawLoop_safe (doc.length + 1) doc ⟨0, 0⟩ (by omega) h hd
+/-- **scan_total** (full strength): for every valid-UTF-8 text no scanner step evaluates a partial
+slice / `bump` / index / `unwrap` out of range: tokenisation ends normally. No bound on the text. -/
+theorem scan_total (doc : Bytes) (h : Valid doc) : (tokenize doc).fin = .ok := by
+  have := rawLoop_safe (doc.length + 1) doc ⟨0, 0⟩ (by omega) h
   simpa [tokenize, produce, rawTokens] using this
 
-/-- contrapositive reading: a scanner panic on valid UTF-8 is only ever caused by `/**/` -/
-theorem scan_panic_only_empty_doc (doc : Bytes) (h : Valid doc)
-    (hp : (tokenize doc).fin = .panic) : hasEmptyDoc doc = true := by
-  cases hd : hasEmptyDoc doc with
-  | true => rfl
-  | false => rw [scan_total_partial doc h hd] at hp; contradiction
-
--- non-vacuity: `/* é */ x` (non-ASCII inside a block comment) satisfies both hypotheses
+-- non-vacuity: `/* é */ x` (non-ASCII inside a block comment); the former witness `/**/` now lexes
 example : (tokenize [47, 42, 32, 195, 169, 32, 42, 47, 32, 120]).fin = .ok :=
-  scan_total_partial _ (by
+  scan_total _ (by
     repeat (first | exact Valid.nil | apply Valid.one _ _ (by decide)
-                  | apply Valid.two _ _ _ (by decide) (by decide) (by decide))) (by decide)
-example : hasEmptyDoc [120, 47, 42, 42, 47] = true := by decide
+                  | apply Valid.two _ _ _ (by decide) (by decide) (by decide)))
+example : (tokenize [47, 42, 42, 47]).toks.map (·.kind) = [.block] := by decide
 
 end SamVerif.Lexer
